@@ -120,6 +120,19 @@ def run(ck):
         for q in qs:
             cases.append({'key': f'{q}|{t}', 'q': q, 't': t, 'thiele': k % 2 == 0, 'filter': rnd.random() < .5, 'scope': rnd.random() < .25,
                           'rs': rnd.randrange(1 << 30)})
+    # element lists that mix light (Z <= 56) and heavy elements: the two words of the element bit set
+    heavy_q = ['[Pd,Pt]', '[Zn,Cd,Hg]', '[Cl,Br,I,At]', '[Sn,Pb]', '[Ba,La]', '[Xe,Rn]', '[C,Pt]', '[Pt,Cl]', '[Pt,Au]', '[Fe,Ru,Os]', '[Na,K,Cs,Fr]', '[Ge,Sn,Pb;D4]', '[S,Se,Te,Po]', '[Cu,Ag,Au]',
+               '[Y,La,Lu]', '[Ca,Sr,Ba,Ra]']
+    heavy_t = ['[Pd]', '[Pt]', 'Cl[Pt](Cl)(N)N', 'C[Hg]C', '[Cd+2].[Zn+2]', 'C[Sn](C)(C)C', 'C[Pb](C)(C)C', '[Ba+2].[La+3]', '[Xe].[Rn]', 'I.Br.Cl', '[At]', '[Os].[Ru].[Fe]', '[Cs+].[Fr+].[Na+].[K+]',
+               'C[Ge](C)(C)C', '[Te].[Po].[Se].S', '[Au].[Ag].[Cu]', '[Lu+3].[Y+3]', '[Ra+2].[Sr+2].[Ca+2]']
+    for q in heavy_q:
+        for t in heavy_t:
+            cases.append({'key': f'{q}|{t}', 'q': q, 't': t, 'thiele': False, 'filter': False, 'scope': False, 'rs': rnd.randrange(1 << 30)})
+    # scoped searches on multi-component targets, also with multi-component queries (one scope mask per component)
+    for q in ['CC', 'C.N', 'C.N.S', 'CC.CC', 'CO.CN', '[C;D1]', 'C~[A]', 'C.C']:
+        for t in ['CCO.CCN', 'CCO.CCN.CCS', 'CC.CC.CC', 'CCOCC.NCCN', 'OCCO.OCCO', 'CCN.CCN.CCO.CCS']:
+            for k in range(3):
+                cases.append({'key': f'{q}|{t}|scoped{k}', 'q': q, 't': t, 'thiele': False, 'filter': k == 2, 'scope': True, 'rs': rnd.randrange(1 << 30)})
     cases = ck.select('compiled-vs-reference', cases)
     if cases:
         res = vlib.pmap('checks.c09', 'observe', cases)
